@@ -114,7 +114,11 @@ class Ctx:
         return o
 
     def floor(self, rule, what: str, found: int, minimum: int):
-        if found < minimum:
+        """vacuity guard: a rule that matches *nothing* would pass for ever.  `minimum` documents how many instances were confirmed
+        by hand on the pinned tree; only finding none at all is an analysis error - a refactoring may legitimately merge two sites
+        into one, and a removed site is the business of the path rules (they report the missing mechanism as a violation)"""
+        self.info.append(f"{rule}: {what}: {found} instance(s) (confirmed by hand on the pinned tree: {minimum})")
+        if found < min(minimum, 1):
             raise AnalysisError(
                 f"{rule}: instance floor not reached for {what}: found {found}, confirmed by hand {minimum} "
                 f"(a rule that matches nothing would pass vacuously)"
@@ -391,10 +395,17 @@ def _protected_names() -> set:
 
 
 def _simple_arg(e) -> bool:
+    """pure, cheap argument expressions that may be duplicated at every use of the parameter"""
     if isinstance(e, (ast.Name, ast.Constant)):
         return True
     if isinstance(e, ast.Attribute):
         return _simple_arg(e.value)
+    if isinstance(e, ast.Call) and isinstance(e.func, ast.Name) and e.func.id in ("len", "id", "type") and len(e.args) == 1 and not e.keywords:
+        return _simple_arg(e.args[0])
+    if isinstance(e, ast.BinOp) and isinstance(e.op, (ast.Add, ast.Sub)):
+        return _simple_arg(e.left) and _simple_arg(e.right)
+    if isinstance(e, ast.UnaryOp) and isinstance(e.op, (ast.Not, ast.USub)):
+        return _simple_arg(e.operand)
     return False
 
 
@@ -575,6 +586,13 @@ def inline_fresh_helpers(repo: Repo, max_inlines: int = 200) -> list[str]:
             serial += 1
             tag = f"{name.strip('_')}_{serial}"
             renames = {v: f"{v}__{tag}" for v in stored}
+            # `t = self._h(...)` where the helper ends in `return r`: r is the caller's t (no copy, no renaming of r)
+            same_var = None
+            if shape == "assign" and not early and last_ret is not None and isinstance(last_ret.value, ast.Name) and last_ret.value.id in stored:
+                tg_ = st.targets[0] if isinstance(st, ast.Assign) else st.target
+                if isinstance(tg_, ast.Name):
+                    same_var = tg_.id
+                    renames[last_ret.value.id] = tg_.id
             res = f"_res__{tag}"
             jump = f"_InlineReturn__{tag}"
             new = []
@@ -586,6 +604,11 @@ def inline_fresh_helpers(repo: Repo, max_inlines: int = 200) -> list[str]:
                 new.append(_ParamSubst(mapping, renames).visit(c))
             need_res = shape in ("assign", "return", "test")
             use_block = bool(early)
+            direct = None
+            if not early and last_ret is not None and last_ret.value is not None and shape in ("assign", "return"):
+                # single return at the end: no result variable, the returned expression goes straight to the caller's statement
+                direct = new.pop()
+                need_res = False
 
             def conv(stmts):
                 out = []
@@ -622,11 +645,14 @@ def inline_fresh_helpers(repo: Repo, max_inlines: int = 200) -> list[str]:
                 new = [blk]
             new = pre + new
             if shape == "assign":
-                repl = clone(st)
-                repl.value = ast.Name(id=res, ctx=ast.Load())
-                new.append(ast.copy_location(repl, st))
+                if direct is not None and same_var is not None:
+                    pass        # the helper's own variable *is* the target now
+                else:
+                    repl = clone(st)
+                    repl.value = direct.value if direct is not None else ast.Name(id=res, ctx=ast.Load())
+                    new.append(ast.copy_location(repl, st))
             elif shape == "return":
-                new.append(ast.copy_location(ast.Return(ast.Name(id=res, ctx=ast.Load())), st))
+                new.append(ast.copy_location(ast.Return(direct.value if direct is not None else ast.Name(id=res, ctx=ast.Load())), st))
             elif shape == "test":
                 # the call was (the operand of `not` in) the whole test of an `if`: evaluate first, test the result
                 t = st.test
@@ -663,10 +689,49 @@ def inline_fresh_helpers(repo: Repo, max_inlines: int = 200) -> list[str]:
     return done
 
 
+def _expand_conditional_expressions(fn) -> bool:
+    """`x = A if c else B` / `return A if c else B` are rewritten in place to the if/else statement form, so that the two spellings are
+    one construct for the CFG (a test node with two branches) and for the rules"""
+    from .source import clone
+    changed = False
+    for par in [fn] + list(own_walk(fn)):
+        for fld in ("body", "orelse", "finalbody"):
+            blk = getattr(par, fld, None)
+            if not isinstance(blk, list):
+                continue
+            i = 0
+            while i < len(blk):
+                st = blk[i]
+                v = getattr(st, "value", None) if isinstance(st, (ast.Assign, ast.AnnAssign, ast.Return)) else None
+                if isinstance(v, ast.IfExp) and not (isinstance(st, ast.AnnAssign) and st.value is None):
+                    def mk(val):
+                        c = clone(st)
+                        c.value = val
+                        if isinstance(c, ast.AnnAssign):
+                            c = ast.copy_location(ast.Assign(targets=[c.target], value=val), st)
+                        return c
+                    new = ast.copy_location(ast.If(test=v.test, body=[mk(v.body)], orelse=[mk(v.orelse)]), st)
+                    blk[i] = new
+                    changed = True
+                    continue      # nested conditional expressions in the branches are expanded on the next visit
+                i += 1
+    return changed
+
+
 def resolve_aliases(repo: Repo):
     """substitute, in place, single-assignment local aliases (`waiters = self._waiters`,
     `task = current_task()`) at their use sites, so that patterns and facts are written
     against the field / call itself and introducing or removing such a temporary is neutral"""
+    for f in repo.all_funcs:
+        ch = False
+        for _ in range(4):
+            if not _expand_conditional_expressions(f.node):
+                break
+            ch = True
+        if ch:
+            for par in ast.walk(f.node):
+                for chd in ast.iter_child_nodes(par):
+                    chd._parent = par
     for f in repo.all_funcs:
         if _inline_return_temps(f.node):
             for par in ast.walk(f.node):
